@@ -496,7 +496,11 @@ func (c20) Case(c *core.Ctx) {
 			// one message of 70..140 KiB without a single line break (longer than any line-oriented buffer)
 			var b bytes.Buffer
 			b.WriteString("<big>")
-			for i, n := 0, 1800+r.Intn(1800); i < n; i++ {
+			rows := 1800 + r.Intn(1800)
+			if r.Intn(2) == 0 {
+				rows = autoInt(r, 4096, 300000, 65536)/28 + 3 // just beyond a size the tree itself spells out
+			}
+			for i, n := 0, rows; i < n; i++ {
 				fmt.Fprintf(&b, `<row id="%d">some text %d</row>`, i, i)
 			}
 			b.WriteString("</big>")
